@@ -272,9 +272,14 @@ pub fn journal_report(prop: &str, path: &str, recheck: &dyn Fn(&Value) -> Vec<St
         };
         let t0 = Instant::now();
         let mut hung = false;
+        let mut killed: Option<i32> = None;
         loop {
             match child.try_wait() {
-                Ok(Some(_)) => break,
+                Ok(Some(st)) => {
+                    use std::os::unix::process::ExitStatusExt;
+                    killed = st.signal();
+                    break;
+                }
                 Ok(None) if t0.elapsed() > Duration::from_secs(60) => {
                     let _ = child.kill();
                     let _ = child.wait();
@@ -294,6 +299,8 @@ pub fn journal_report(prop: &str, path: &str, recheck: &dyn Fn(&Value) -> Vec<St
         let mut desc = v.desc.clone();
         if hung {
             desc = format!("{} [re-executing this case did not terminate within 60 s]", desc);
+        } else if let Some(sg) = killed {
+            desc = format!("{} [re-executing this case killed its process with signal {}]", desc, sg);
         } else if !again.iter().any(|s| s == &v.sig) {
             eprintln!("note: journalled violation sig={} did not reproduce on re-execution (got {:?})", v.sig, again);
             continue;
@@ -317,6 +324,26 @@ pub fn journal_report(prop: &str, path: &str, recheck: &dyn Fn(&Value) -> Vec<St
         eprintln!("MACHINERY-ERROR: the checker did not finish and none of its journalled violations is reportable; no verdict");
         2
     }
+}
+
+/// the check's own process is brought down by the subject, reproducibly (see the supervisor in main.rs)
+pub fn report_process_killed(prop: &str, sig: i32, thorough: bool) -> i32 {
+    let signame = match sig { 4 => "SIGILL", 6 => "SIGABRT", 7 => "SIGBUS", 8 => "SIGFPE", 11 => "SIGSEGV", _ => "signal" };
+    let vsig = format!("process-killed:{}", signame);
+    let desc = format!("while the {} check was exercising the property's operations, a call into the library killed the process with {} (an abort - e.g. a violated unsafe precondition or a panic that cannot unwind - or a memory fault), twice in two runs; the check completes on a tree where the library returns from every call", prop, signame);
+    let known = Known::load();
+    if let Some(d) = known.lookup(prop, &vsig) {
+        println!("KNOWN-FINDING: property={} sig={} {}", prop, vsig, d);
+        return 0;
+    }
+    let dir = format!("{}/replays/{}", verif_dir(), prop);
+    let _ = std::fs::create_dir_all(&dir);
+    let path = format!("{}/{}.json", dir, sanitize(&vsig));
+    let body = json!({"property": prop, "sig": vsig, "description": desc, "case": {"kind":"whole-check","tier": if thorough { "thorough" } else { "quick" }}, "replay": format!("bin/check {} {}", prop, if thorough { "thorough" } else { "quick" })});
+    let _ = std::fs::write(&path, serde_json::to_string_pretty(&body).unwrap());
+    println!("VIOLATION property={} replay={}", prop, path);
+    println!("  sig={}  {}", vsig, desc);
+    1
 }
 
 pub fn nthreads() -> usize {
